@@ -28,6 +28,9 @@ RELS = C02.RELS
 
 def rules(ctx):
     P, R = ctx.prog, ctx.res
+    from .C14 import derived_fields
+    ctx.rule('R03.6', "a field of model objects outside the frozen bookkeeping fields that is written together with the terms / a bookkeeping field is written by every other mutator of that state (no stale memo)", floor=1)
+    derived_fields(ctx, 'R03.6')
     E = Effects(P, R)
     E.build()
     ctx.rule('R03.1', "six-sibling skeleton: same-named boolean method on puso_to_pubo(H) of the recorded "
@@ -155,6 +158,7 @@ def rules(ctx):
     from .C05 import derived_from_copy
     derived_from_copy(ctx, 'R03.3')
     C02.record_not_shared(ctx, 'R03.4')
+    C02.copy_ctor_counter(ctx, 'R03.3')
 
     # ---------------------------------------------------------------- R03.5
     table = ['is_solution_valid', 'remove_ancilla_from_solution', 'subs', '__round__', 'update',
